@@ -62,7 +62,8 @@ type EvRedef struct {
 	Ev     string  `json:"ev"` // "redef"
 	OK     bool    `json:"ok"`
 	Inputs []Label `json:"inputs"`
-	Toks   []int   `json:"toks"` // fresh tokens handed to the follow-up call, per declared input
+	Given  []Label `json:"given"` // label under which the harness supplied each declared input (interface types -> dynamic type)
+	Toks   []int   `json:"toks"`  // fresh tokens handed to the follow-up call, per declared input
 	Detail string  `json:"detail"`
 	Execs  int     `json:"execs"` // number of user bodies executed during Redefine
 }
@@ -225,8 +226,12 @@ func (env *Env) buildReflect(idx int, fs FuncSpec, opts []am.Arg) (*am.Func, err
 			}
 			if outPtr && fs.NilOut {
 				res = append(res, reflect.Zero(outT[0]))
-				for range fs.Out {
-					ex.Outs = append(ex.Outs, 0)
+				for _, l := range fs.Out {
+					if IsIface(l.Type) {
+						ex.Outs = append(ex.Outs, -1) // nil interface
+					} else {
+						ex.Outs = append(ex.Outs, 0) // zero struct
+					}
 				}
 			} else {
 				s := reflect.New(st)
@@ -298,7 +303,8 @@ func (env *Env) buildBuilt(idx int, fs FuncSpec, opts []am.Arg) (*am.Func, error
 			if l.Name != "" {
 				p = out.Named(strings.ToLower(l.Name))
 			} else {
-				p = out.TypedSubtype(TypeOf(l.Type), l.Sub)
+				// well-formed lists hold at most one type-only value per type
+				p = out.Typed(TypeOf(l.Type))
 			}
 			if p == nil {
 				panic(fmt.Sprintf("harness: built output %v not found in value set", l))
